@@ -144,6 +144,16 @@ Fixpoint paths (p : cpol) : list path :=
   | CThresh k subs => kpaths k (map paths subs)
   end.
 
+(* the leaves of a concrete policy, as atoms *)
+Fixpoint cleaves_of (c : cpol) : list spol :=
+  match c with
+  | CUnsat | CTriv => []
+  | CKey k => [SKey k] | CAfter t => [SAfter t] | COlder t => [SOlder t]
+  | CSha256 h => [SSha256 h] | CHash256 h => [SHash256 h]
+  | CRipemd160 h => [SRipemd160 h] | CHash160 h => [SHash160 h]
+  | CAnd subs | COr subs | CThresh _ subs => flat_map cleaves_of subs
+  end.
+
 (* lock kinds of a leaf (BIP 68 type flag / BIP 65 threshold) *)
 Definition leaf_csv_h (l : spol) : bool :=
   match l with SOlder t => negb (N.testbit t 31) && negb (N.testbit t 22) | _ => false end.
